@@ -460,7 +460,7 @@ fn wait_outbuf(t: Option<std::thread::ThreadId>, bytes: usize, timeout: Duration
 
 pub fn run(rc: &mut RunCtx) {
     let seed = rc.seed;
-    let n = rc.n(500, 15000);
+    let n = rc.n(1500, 20000);
     for i in 0..n {
         let id = format!("close:{}", i);
         if !rc.mine(&id) {
